@@ -198,7 +198,20 @@ fn measure_family(fam: &str, kmax: usize, step: usize, source: &dyn Fn(usize) ->
             rep.count("evaluations", 1);
             rep.distinct.push(hash64(&src));
             match sizes(&src) {
-                Ok(s) => table.push((k, src.len(), s)),
+                Ok(s) => {
+                    table.push((k, src.len(), s));
+                    // once a depth already violates the bound there is no point in compiling deeper
+                    // members (under an exponential defect they would take exponentially long)
+                    let from = if step == 1 { 8 } else { kmax / 2 + 2 };
+                    let n = table.len();
+                    let (_, srclen, last) = &table[n - 1];
+                    let over_cap = last.iter().any(|(_, size)| *size > 64 * srclen * srclen);
+                    let over_ratio = n > step && table[n - 1 - step].0 >= from && table[n - 1 - step].0 + step == k && table[n - 1 - step].2.iter().zip(last.iter()).any(|((_, a), (_, b))| *b as f64 / (*a).max(1) as f64 > 1.5);
+                    if over_cap || over_ratio {
+                        rep.count("families_stopped_at_first_violating_depth", 1);
+                        break;
+                    }
+                }
                 Err(StageError::Panic { msg, .. }) if super::codegen::is_capacity_panic(&msg) => {
                     rep.count("skipped_capacity", 1);
                 }
